@@ -58,7 +58,8 @@ def run_shard(shard, ctx):
                      "pax-x-before-dir-after-file", "links-visor", "links-ustar", "links-mixed", "regular-typeflags",
                      "relinked-visor", "relinked-ustar", "open-by-name-after-fileobj", "pax-size-override-ustar", "pax-size-override-between-visor",
                      "pax-size-before-nonregular-with-offset", "data-inside-header-area", "names-with-magic-text",
-                     "ustar-prefix-lengths"):
+                     "ustar-prefix-lengths", "stacked-pax-xsize+g", "stacked-pax-xsize+xpath", "stacked-pax-g+xsize",
+                     "stacked-pax-xpath+xsize", "stacked-pax-Xsize+g", "stacked-pax-xsize+g+xpath"):
             run_case({"special": what}, ctx)
         return
     if shard.get("high"):
@@ -393,6 +394,39 @@ def _case_special(case, ctx):
                     got.append((m.name, kind, m.linkname, data))
                 exp = [("etc/target", "file", "", body), ("etc/hard", "hard", "etc/target", body), ("etc/sym", "sym", "target", body),
                        ("etc/dangling", "sym", "nowhere", "KeyError"), ("etc/other", "file", "", other)]
+            elif what.startswith("stacked-pax-"):
+                # two pax headers one behind the other in front of one visor member with out-of-line data (a size record in the
+                # outer or the inner one), members behind it
+                def rec(k, v):
+                    body = f" {k}={v}\n".encode()
+                    n = len(body) + 1
+                    while len(str(n)) + len(body) != n:
+                        n = len(str(n)) + len(body)
+                    return str(n).encode() + body
+
+                first, second = b"F" * 700, b"S" * 513
+                longname = "etc/" + "q" * 140 + "/file"
+                combo = what[len("stacked-pax-"):]
+                recs = {"xsize": (b"x", rec("size", str(len(second))) + rec("mtime", "1700000000.5")), "g": (b"g", rec("comment", "global")),
+                        "xpath": (b"x", rec("path", longname)), "Xsize": (b"X", rec("size", str(len(second))))}
+                seq = [recs[k] for k in combo.split("+")]
+                name2 = longname if "xpath" in combo else "etc/second"
+                heads = bytearray()
+                data0 = 16384
+                heads += B.hdr("etc/first", len(first), offset_data=data0)
+                for typ, payload in seq:
+                    heads += B.hdr("././@PaxHeader", len(payload), typ=typ, visor=False) + B.pad512(payload)
+                heads += B.hdr(name2[:100], len(second), offset_data=data0 + 4096)
+                exp = [("etc/first", False, first), (name2, False, second)]
+                for j in range(3):
+                    heads += B.hdr(f"etc/after{j}", 5 + j, offset_data=data0 + 8192 + 4096 * j)
+                    exp.append((f"etc/after{j}", False, b"LAST!xyz"[:5 + j]))
+                heads += b"\0" * 1024
+                assert len(heads) <= data0
+                img = bytes(heads).ljust(data0, b"\0") + first.ljust(4096, b"\xEE") + second.ljust(4096, b"\xEE")
+                for j in range(3):
+                    img += b"LAST!xyz"[:5 + j].ljust(4096, b"\xEE")
+                got = _listing(vmtar.open(fileobj=io.BytesIO(img)))
             elif what.startswith("pax-"):
                 # pax extended headers ('x', the Solaris spelling 'X', global 'g') in front of visor and ustar members; a size
                 # record makes the reader recompute where the next header lies
